@@ -31,6 +31,16 @@ CHECKS = {
              "Each is executed on the real library; J_Frozen requires that duplication never raises, that the duplicate is observed exactly "
              "like its original (6 contexts x inline/param + metadata), and that later calls on either side leave the other unchanged.",
         ref="6/C15", technique="TLA+ heap model with Dup actions (PT_Sharing) as history generator; replay on the code; TLC trace judge (J_Frozen)"),
+    "C02": dict(
+        text="PT_RenderConc models k renderer threads over one shared object as interleaved attribute micro-steps with a write footprint; TLC "
+             "proves for every interleaving that completed renders equal the sequential result when the footprint is empty and returns the "
+             "breaking schedule when it is not. The footprint is MEASURED on the code (structural digest of the object graph around every "
+             "render pass). ~2200 renderable objects (every catalogue seed and one-call successor, hash-order probes) are rendered 3x under "
+             "6 contexts x inline/param, in 4-9 other interpreter processes with different PYTHONHASHSEED and from 6 threads; J_Render (TLC) "
+             "requires every recorded render to be the spec action: digest unchanged, output equal to the first output of that context anywhere, "
+             "caller-supplied parameterizer only appended to.",
+        ref="6/C02", technique="TLA+ interleaving model with measured write footprint (PT_RenderConc) + TLC trace judge of recorded renders (J_Render)",
+        note=TLC_NOTE + " Thread schedules and hash seeds are sampled; the all-interleavings claim is on the model, bound to the code by the measured footprint."),
     "C05": dict(
         text="TLC proves on the specification that the intended string/identifier encoders round-trip through the reference lexer of every "
              "dialect, stand-alone and embedded, for all strings over a 20-class adversarial alphabet up to length 2 (quick) / 3 (thorough). "
